@@ -101,6 +101,11 @@ func Decode(b []byte) (v Value, n int, st Status_, reason string) {
 	return decode(b, 0, 0)
 }
 
+// LaxIntegers makes the decoder accept any CR/LF-free payload in an integer
+// frame (framing-level strictness only). Used by monitors that judge framing,
+// not content. Not safe for concurrent toggling; set once at start-up.
+var LaxIntegers = false
+
 const maxDepth = 1 << 20
 
 func readLine(b []byte, off int) (line []byte, next int, st Status_, reason string) {
@@ -155,7 +160,7 @@ func decode(b []byte, off int, depth int) (Value, int, Status_, string) {
 		if st != Complete {
 			return Value{}, next, st, why
 		}
-		if k == ':' {
+		if k == ':' && !LaxIntegers {
 			if _, ok := strictInt(line); !ok {
 				return Value{}, off, Invalid, fmt.Sprintf("integer payload %q", line)
 			}
